@@ -532,6 +532,8 @@ func (h *handler) processStreamingRpc(
 	ctx, cancel, err := contextFromHeaders(clientCtx, rpc.GetHeader(), time.Now())
 	if err != nil {
 		log.Info().Msgf("invalid headers: calling RST stream %d", rpc.Id)
+		// No stream will exist to release the context later on.
+		cancel()
 		return h.resetStream(rpc)
 	}
 
